@@ -346,5 +346,9 @@ func unmarshalDynamic(dec *msgpack.Decoder, path cty.Path) (cty.Value, error) {
 		return cty.DynamicVal, path.NewError(err)
 	}
 
+	// A type description can carry optional-attribute annotations, which
+	// are meaningful only for type constraints and never for a value's type.
+	ty = ty.WithoutOptionalAttributesDeep()
+
 	return unmarshal(dec, ty, path)
 }
